@@ -183,28 +183,28 @@ Theorem hillclimb_search_iterations_bound : forall (S : Type) (next : S -> Z * S
 Proof. exact search_iterations_bound_lemma. Qed.
 
 (* the whole run, for every stream: it ends with addresses after at most hc_iteration_bound iterations of
-   the search loop, or with the ValueError of random.randint (code 1, reachable: hillclimb_randint_refuted).
-   No list access leaves its list (2), the predecessor walk always ends although aborted passes leave stale
-   predecessor/turn fields (3), allocate_lr and search end within their bounds (4, 5). *)
+   the search loop.  No modelled exception is possible: random.randint is never asked for an empty range
+   (1, after the repair of P8), no list access leaves its list (2), the predecessor walk always ends although
+   aborted passes leave stale predecessor/turn fields (3), allocate_lr and search end within their bounds (4, 5). *)
 Theorem hillclimb_terminates : forall (S : Type) (next : S -> Z * S) lrs mi limit s,
   Forall hc_wf lrs -> footprint_bound lrs <= 2 ^ 63 ->
-  match hillclimb S next lrs mi limit s with
-  | Ok (_, _, iters, _) => 0 <= iters <= hc_iteration_bound lrs mi
-  | Err c => c = 1
-  end.
+  exists addrs best iters draws,
+    hillclimb S next lrs mi limit s = Ok (addrs, best, iters, draws) /\ 0 <= iters <= hc_iteration_bound lrs mi.
 Proof.
   intros S next lrs mi limit s Hwf Hfb.
   pose proof (hillclimb_terminates_lemma S next lrs mi limit s Hwf Hfb) as A.
-  pose proof (hillclimb_only_valueerror_lemma S next lrs mi limit s Hwf Hfb) as B.
-  destruct (hillclimb S next lrs mi limit s) as [[[[ad bs] it] dr]|c]; [exact A | exact B].
+  pose proof (hillclimb_no_error_lemma S next lrs mi limit s Hwf Hfb) as B.
+  destruct (hillclimb S next lrs mi limit s) as [[[[ad bs] it] dr]|c]; [|destruct B].
+  exists ad, bs, it, dr. split; [reflexivity | exact A].
 Qed.
 
-(* the unguarded random.randint(0, len(turn_list) - 2): ValueError on a five-range input *)
-Theorem hillclimb_randint_refuted :
+(* the code before the repair (bound len(turn_list) - 2 without the max; AllocExamples.old_hillclimb):
+   ValueError on a five-range input with Python's own random stream *)
+Theorem hillclimb_randint_old_code_refuted :
   exists lrs mi limit s,
     Forall hc_wf lrs /\ footprint_bound lrs <= 2 ^ 63 /\
-    hillclimb (list Z) next_list lrs mi limit s = Err 1.
-Proof. exact hillclimb_randint_refuted_lemma. Qed.
+    old_hillclimb (list Z) next_list lrs mi limit s = Err 1.
+Proof. exact hillclimb_randint_old_code_refuted_lemma. Qed.
 
 Print Assumptions greedy_no_overlap.
 Print Assumptions greedy_no_overlap_any_order.
@@ -224,5 +224,5 @@ Print Assumptions hillclimb_allocate_lr_terminates.
 Print Assumptions hillclimb_search_terminates.
 Print Assumptions hillclimb_search_iterations_bound.
 Print Assumptions hillclimb_terminates.
-Print Assumptions hillclimb_randint_refuted.
+Print Assumptions hillclimb_randint_old_code_refuted.
 Print Assumptions gen_round_up_is_model.
